@@ -13,6 +13,8 @@ import (
 	"fmt"
 	"strings"
 	"sync"
+
+	"github.com/smart-core-os/sc-api/go/types"
 	"time"
 
 	"google.golang.org/protobuf/proto"
@@ -43,6 +45,7 @@ func run(r *vk.Run) {
 	servers(r)
 	models(r)
 	concurrentSubscribe(r)
+	sharedChangeEvents(r)
 	r.Require("core-ops", 1000)
 	r.Require("server-calls", 1000)
 	r.Require("model-ops", 500)
@@ -50,6 +53,15 @@ func run(r *vk.Run) {
 
 // ---------------------------------------------------------------------------------------------------------
 // part A: core resources
+
+// heldEvent is a received collection change together with what it said when it was received.
+type heldEvent struct {
+	e        *resource.CollectionChange
+	typ      types.ChangeType
+	id       string
+	old, new proto.Message
+	at       int
+}
 
 // corePaths picks a read mask: top-level paths, paths into a singular and a repeated sub-message, a two-level path.
 func corePaths(rng *vk.Rand) []string {
@@ -99,6 +111,8 @@ func core(r *vk.Run) {
 			kind = "value"
 		}
 		var subs []coreSub
+		var emu sync.Mutex
+		var held []heldEvent
 		observe := func(label string, m proto.Message) {
 			smu.Lock()
 			s := step
@@ -124,6 +138,14 @@ func core(r *vk.Run) {
 					}
 				}()
 			case rng.Bool():
+				if rng.Chance(1, 3) {
+					// an include predicate on some subscribers: what they do with a change must stay private to them
+					odd := rng.Bool()
+					ro = append(ro, resource.WithInclude(func(_ string, m proto.Message) bool {
+						t, _ := m.(*tat)
+						return t != nil && (t.DefaultInt32%2 != 0) == odd
+					}))
+				}
 				ch := col.Pull(ctx, ro...)
 				go func() {
 					for e := range ch {
@@ -133,6 +155,10 @@ func core(r *vk.Run) {
 						}
 						observe(lbl+"-new", e.NewValue)
 						observe(lbl+"-old", e.OldValue)
+						// the change itself is retained too: kind, id and which values it points to must stay as received
+						emu.Lock()
+						held = append(held, heldEvent{e: e, typ: e.ChangeType, id: e.Id, old: e.OldValue, new: e.NewValue, at: len(held)})
+						emu.Unlock()
 					}
 				}()
 			default:
@@ -156,6 +182,16 @@ func core(r *vk.Run) {
 			for _, d := range diffs {
 				r.Violation(fmt.Sprintf("C07/%s/%s.%s", d.Label, kind, blame), fmt.Sprintf("core case %d step %d (%s): %v", i, step, lastOp, d), map[string]any{"case": i, "step": step})
 			}
+			emu.Lock()
+			for _, h := range held {
+				if h.e.ChangeType != h.typ || h.e.Id != h.id || h.e.OldValue != h.old || h.e.NewValue != h.new {
+					r.Violation(fmt.Sprintf("C07/event-struct/%s.%s", kind, blame), fmt.Sprintf("core case %d step %d (%s): a change event received earlier as {%s %q old=%v new=%v} now reads {%s %q old=%v new=%v}", i, step, lastOp, h.typ, h.id, h.old != nil, h.new != nil, h.e.ChangeType, h.e.Id, h.e.OldValue != nil, h.e.NewValue != nil), map[string]any{"case": i, "step": step})
+					diffs = append(diffs, vk.ShadowDiff{})
+					break
+				}
+			}
+			r.Count("retained-change-events-verified", len(held))
+			emu.Unlock()
 			return len(diffs) == 0
 		}
 		for st := 0; st < steps; st++ {
